@@ -17,15 +17,24 @@ def design_check(scratch, tier):
         jobs["mc"] = ex.submit(C.tlc, scratch, "Registry_MC.tla", "Registry_MC.cfg", 10, None, 2400, None, None, "rgmc")
         for n in NEGS:
             jobs[n] = ex.submit(C.tlc, scratch, "Registry_MC.tla", "Registry_Neg_%s.cfg" % n, 2, None, 1200, None, None, "rgneg" + n)
+        # the trie's bindings per method (implicit, primary, additional) under register / drop
+        jobs["rb"] = ex.submit(C.tlc, scratch, "RegBindings_MC.tla", "RegBindings_MC.cfg", 2, None, 600, None, None, "rbmc")
+        jobs["rbneg"] = ex.submit(C.tlc, scratch, "RegBindings_MC.tla", "RegBindings_Neg_DelOne.cfg", 2, None, 600, None, None, "rbneg")
         res = {k: f.result() for k, f in jobs.items()}
     C.tlc_ok(res["mc"], "Registry_MC")
     if C.tlc_violated(res["mc"]):
         raise C.Infra("Registry design check violated:\n" + res["mc"]["out"][-2000:])
+    C.tlc_ok(res["rb"], "RegBindings_MC")
+    if C.tlc_violated(res["rb"]):
+        raise C.Infra("RegBindings design check violated:\n" + res["rb"]["out"][-2000:])
+    v = C.tlc_violated(res["rbneg"])
+    if not v or "Reachable" not in v:
+        raise C.Infra("vacuity guard RegBindings_Neg_DelOne did not violate Reachable (%s)" % (v,))
     for n, inv in NEGS.items():
         v = C.tlc_violated(res[n])
         if not v or inv not in v:
             raise C.Infra("vacuity guard Registry_Neg_%s did not violate %s (%s)" % (n, inv, v))
-    return dict(states=res["mc"]["distinct"], transitions=res["mc"]["generated"], neg_guards=len(NEGS))
+    return dict(states=res["mc"]["distinct"] + res["rb"]["distinct"], transitions=res["mc"]["generated"] + res["rb"]["generated"], neg_guards=len(NEGS) + 1)
 
 
 def gen_hists(scratch, tier, seed):
@@ -184,8 +193,10 @@ def run(prop, tier, replay=None):
                    evaluations=stat["requests"], distinct_nontrivial=stat["served"],
                    rule=("histories: every sequence of {RegisterService(local), RegisterConn(c1|c2), re-register unchanged, DropConn(c1|c2), drop "
                          "unknown, failing registration} of length 3 (all 324) and length 4 (2,160; quick tier samples 500, thorough adds sampled "
-                         "length 5) enumerated by TLC; after every step each of 3 methods is requested 24-40 times over its HTTP rule, its implicit "
-                         "path and gRPC framing; local and c1 both serve service A, c2 serves A and B. Non-trivial = probe sets at states where "
+                         "length 5) enumerated by TLC; after every step each of 4 methods is requested 24-40 times over its HTTP rule, each of its "
+                         "additional bindings (0-2), its implicit path and gRPC framing; local and c1 both serve service A, c2 serves A and B (B.m2's route "
+                         "lies below A.m1's). RegBindings.tla models the bindings per method under register/drop ('leftover' counts probes "
+                         "answered Unimplemented by a route that outlived its backends - allowed, informational). Non-trivial = probe sets at states where "
                          "the method has at least one live backend."),
                    samples=samples, exhaustive=(tier != "quick"), neg_guards_violated=design.get("neg_guards"),
                    **{k: v for k, v in stat.items() if k != "hists"}, known_findings=dict(known),
